@@ -879,21 +879,38 @@ def compare_model(res, case, obs, outs):
         res.traces += 1
 
 
-def sequence_oracle(rng):
-    """one CosmoLikelihood instance evaluated along a path of parameter vectors in which consecutive
+def sequence_oracle(rng, t=None):
+    """(t: systematic part — model t % 4; t < 4 nothing fixed, then all parameters but ONE fixed, the free one cycling through
+    the parameters of the model, interpolated)
+    one CosmoLikelihood instance evaluated along a path of parameter vectors in which consecutive
     vectors differ in exactly ONE parameter: after every step the distances handed to the lens must be
     the FLRW distances of the CURRENT vector (stale per-parameter caches only show on such paths)"""
     from hierarc.Likelihood.cosmo_likelihood import CosmoLikelihood
     fails = []
-    model = rng.choice(MODELS)
+    model = rng.choice(MODELS) if t is None else (MODELS[t % 4] if t < 16 else "w0waCDM")
     zd, zs = rng.uniform(0.2, 0.8), rng.uniform(1.2, 2.5)
     lens = dict(z_lens=zd, z_source=zs, likelihood_type="DdtGaussian", ddt_mean=5000.0, ddt_sigma=500.0)
-    interp = rng.random() < 0.8
-    cl = CosmoLikelihood([lens], model, {}, dict(BOUNDS), interpolate_cosmo=interp, num_redshift_interp=300)
-    names = cl.param.param_list()
+    interp = rng.random() < 0.8 or (t is not None and t >= 4)
     kw = gen_kw(rng, model)
     while not physical(flrw_params(model, kw), zs):
         kw = gen_kw(rng, model)
+    # part of the cosmological parameters may be held fixed by the user (all but one: a one-parameter scan of w, of ok …);
+    # the path then moves through the sampled ones only
+    all_names = list(kw)
+    fix_mode = rng.choice(["none", "none", "all_but_one", "all_but_one", "some"])
+    if t is not None:
+        fix_mode = "none" if t < 4 else "all_but_one"
+    if fix_mode == "all_but_one" and len(all_names) > 1:
+        free = rng.choice(all_names)
+        if t is not None:
+            free = all_names[-1] if t >= 16 else all_names[(t // 4 - 1) % len(all_names)]
+        fixed = {n: kw[n] for n in all_names if n != free}
+    elif fix_mode == "some" and len(all_names) > 2:
+        fixed = {n: kw[n] for n in rng.sample(all_names, rng.randint(1, len(all_names) - 2))}
+    else:
+        fixed = {}
+    cl = CosmoLikelihood([lens], model, {}, dict(BOUNDS, kwargs_fixed_cosmo=dict(fixed)), interpolate_cosmo=interp, num_redshift_interp=300)
+    names = cl.param.param_list()
     x = [kw[n] for n in names]
     the_lens = cl._likelihoodLensSample._lens_list[0]
     steps = 0
@@ -917,8 +934,9 @@ def sequence_oracle(rng):
         tol = 2e-3 if interp else 1e-8
         steps += 1
         if abs(float(ddt) / rddt - 1) > tol or abs(float(dd) / rdd - 1) > tol:
-            fails.append("after changing only %s: Ddt, Dd = %r, %r but the FLRW values of the current vector are %r, %r (%s, %s)"
-                         % (names[j], float(ddt), float(dd), rddt, rdd, model, "interpolated" if interp else "exact"))
+            fails.append("after changing only %s: Ddt, Dd = %r, %r but the FLRW values of the current vector are %r, %r (%s, %s%s)"
+                         % (names[j], float(ddt), float(dd), rddt, rdd, model, "interpolated" if interp else "exact",
+                            ", fixed: %s" % sorted(fixed) if fixed else ""))
             break
     return fails, model, steps
 
@@ -988,9 +1006,9 @@ def run(ctx, res):
         if f:
             res.violation("CosmoLikelihood.likelihood:anchor-redshift-not-forwarded", f, {"anchor_seed": aseed})
     # ---------------- stream 0: one instance, paths changing one parameter at a time
-    for _ in range(ctx.n(12, 120)):
+    for t_ in range(ctx.n(20, 120)):
         try:
-            sf, smodel, ssteps = sequence_oracle(rng)
+            sf, smodel, ssteps = sequence_oracle(rng, t_ if t_ < 17 else None)
         except Exception as e:  # noqa
             res.notes.append("sequence oracle could not run: %r" % (e,))
             continue
